@@ -7,6 +7,7 @@ import PyElf.Spec.DwarfStructs
 import PyElf.Model.Env
 import PyElf.Driver.C16
 import PyElf.Driver.Tie
+import PyElf.Driver.C12
 import PyElf.Driver.C01
 open Lean
 namespace PyElf
@@ -57,6 +58,7 @@ def handle (req : Json) : Except String Json := do
   | "con" => handleCon req
   | "C16" => Driver.C16.handle req
   | "tie" => Driver.Tie.handle req
+  | "C12" => Driver.C12.handle req
   | "C01" => Driver.C01.handle req
   | _ => throw s!"unknown property {p}"
 
